@@ -119,9 +119,10 @@ class SimProc:
 class Fault:
     """One planned fault for one process.
 
-    kind: crash | torn_write | enospc | eio_write | short_write | eio_read | eacces_open
+    kind: crash | torn_write | enospc | eio_write | short_write | eio_read | eacces_open | eio_open | eio_stat | eperm_rename
     at:   event number of the process at which it fires
-    frac: for partial writes, fraction (0..1) of the raw write that persists
+    frac: for partial writes, fraction (0..1) of the raw write that persists;
+          negative: |frac| of it, cut back to the last line boundary before that
     """
 
     __slots__ = ("kind", "at", "frac", "fired", "where", "then")
@@ -265,6 +266,11 @@ class SimFileIO(_RealFileIO):
         if dec is not None:
             kind = dec[0]
             j = dec[1]
+            if len(dec) > 2 and dec[2] and j:
+                cut = bytes(memoryview(b).cast("B")[:j]).rfind(b"\n")
+                if cut >= 0:
+                    j = cut + 1
+                    w.probe("fault_on_line_boundary")
             if kind == "torn_write":
                 if j:
                     super().write(memoryview(b).cast("B")[:j])
@@ -518,14 +524,17 @@ class World:
             f.fired = True
             f.where = (op, rel)
             self.count_fault(kind)
-            j = int(nbytes * f.frac)
+            j = int(nbytes * abs(f.frac))
             if j >= nbytes:
                 j = nbytes - 1
             if j < 0:
                 j = 0
             if 0 < j < nbytes:
                 self.probe("fault_inside_flush")
-            return (kind, j)
+            # a negative fraction asks for a cut on a line boundary: the write
+            # persists up to and including the last newline before that point
+            # (a truncated line-oriented file that still parses)
+            return (kind, j, f.frac < 0)
         if kind == "eio_read":
             if op != "read":
                 return None
@@ -537,6 +546,22 @@ class World:
             # eacces: the directory is read-only; eio: a transient error of the kind
             # network file systems return from open(2)
             if not (op.startswith("open:") and any(c in op[5:] for c in "wxa+")):
+                return None
+            f.fired = True
+            f.where = (op, rel)
+            self.count_fault(kind)
+            return (kind, 0)
+        if kind == "eio_stat":
+            # a transient error from stat(2) (network file systems)
+            if op != "stat":
+                return None
+            f.fired = True
+            f.where = (op, rel)
+            self.count_fault(kind)
+            return (kind, 0)
+        if kind == "eperm_rename":
+            # rename(2) refused (sticky directory, file busy); nothing is moved
+            if op not in ("replace", "rename"):
                 return None
             f.fired = True
             f.where = (op, rel)
@@ -656,7 +681,9 @@ class World:
         if self.owns(path):
             p = self._cur
             if not p.zombie:
-                self.event("stat", self.rel(os.fspath(path)), 0, False)
+                dec = self.event("stat", self.rel(os.fspath(path)), 0, False)
+                if dec is not None and dec[0] == "eio_stat":
+                    raise OSError(errno.EIO, "Input/output error (injected)", os.fspath(path))
         return _REAL["stat"](path, *a, **kw)
 
     def sim_lstat(self, path, *a, **kw):
@@ -670,8 +697,12 @@ class World:
         if p.zombie:
             return None
         rs, rd = self.rel(os.fspath(src)), self.rel(os.fspath(dst))
-        self.event(name, rd, 0, True)
+        dec = self.event(name, rd, 0, True)
         tidx = len(self.trace) - 1
+        if dec is not None and dec[0] == "eperm_rename":
+            e = PermissionError(errno.EPERM, "Operation not permitted (injected)", os.fspath(src))
+            self.note_failed(e, tidx)
+            raise e
         self.trace[tidx] = self.trace[tidx][:5] + ("from:" + rs,)
         try:
             return _REAL[name](src, dst, *a, **kw)
@@ -768,6 +799,10 @@ class World:
         dec = self.event("write", rel, n, True)
         if dec is not None:
             kind, j = dec[0], dec[1]
+            if len(dec) > 2 and dec[2] and j:
+                cut = bytes(memoryview(data).cast("B")[:j]).rfind(b"\n")
+                if cut >= 0:
+                    j = cut + 1
             if kind == "torn_write":
                 if j:
                     _REAL["os_write"](fd, bytes(memoryview(data).cast("B")[:j]))
